@@ -1,13 +1,18 @@
 """C15 - characterisation results do not depend on the units the isotherm is stored in.
 
 proof phase   : Props/C15.v: accessor invariance from the C01 factor theorems over the GENERATED c_pressure / c_loading, instantiated
-                per entry point through the GENERATED acquisition table (tools/py2v_static.py -> Gen/AcquireGen.v); OLS scaling.
+                per entry point through the GENERATED acquisition table (tools/py2v_static.py -> Gen/AcquireGen.v); OLS scaling;
+                the adsorbate of those theorems instantiated with the one built from the GENERATED Adsorbate property methods
+                (tools/py2v_adsmethods.py -> Gen/AdsMethodsGen.v) for every adsorbate KIND (backend answers / stored property only /
+                backend fails at the temperature): the converter gets the pascal value divided ONCE by the unit (Charact/InvKinds.v).
 correspondence: the hand-written accessor model (Charact/Invariance.v acc_pressure / acc_loading / arg_pressure, QNum) vs
                 PointIsotherm.pressure() / loading() / loading_at() on real isotherms in several stored representations.
 oracle/search : metamorphic, on the implementation: every entry point x sample and synthetic isotherms x conversions of the stored
                 pressure representation, non-fractional loading representation and temperature unit (also of the reference isotherm /
                 of each isotherm of an isosteric set) -> results equal field by field; Henry constants x exact unit factors;
                 the SAME objects analysed, converted in place, analysed again (stale interpolators / memoised values);
+                adsorbate kinds (shipped backend, user-defined stored-only, backend + different stored values, backend failing at
+                the temperature + stored values) x entry points x the same points WRITTEN DOWN in several pressure representations;
                 loadings x c (c from 1e-6 to 1e6) -> extensive results x c, intensive results and selected regions unchanged.
 """
 import math
@@ -30,7 +35,11 @@ MANIFEST = dict(
          "area_langmuir, t_plot, dr_plot, da_plot, psd_mesoporous, psd_microporous and alpha_s (sample side) name everything they read "
          "(entry_points_read_invariantly), psd_dft names all six labels from the kernel's units, initial_henry_* read native columns "
          "(covariant: exact factor lfac/pfac for least-squares slopes), and - refuted - the alpha_s reference look-up names only the "
-         "sample's pressure unit and no loading basis, isosteric_enthalpy reads pressures in each isotherm's own mode/unit. Scaling clause: OLS slope "
+         "sample's pressure unit and no loading basis, isosteric_enthalpy reads pressures in each isotherm's own mode/unit. Adsorbate kinds: for the "
+         "adsorbate built from the property methods GENERATED from adsorbate.py (three-way: thermodynamic backend, else stored property, else error) the "
+         "saturation pressure handed to the converter for a unit is the pascal value divided once by the unit's size whether it comes from the backend (also "
+         "when a different value is stored beside it) or from the dictionary (no backend, or backend failing at that temperature), and the named reads are "
+         "invariant for each kind (saturation_pressure_unit_by_kind, acquire_invariant_pressure_by_kind). Scaling clause: OLS slope "
          "and intercept scale with the data, slope/intercept and r^2 are unchanged; area_BET_raw (model over the generated BET formulas) selects the "
          "same window - manual or Rouquerol - for every positive scale factor and returns n_m, area x c, slope, intercept / c, C and p_m unchanged; "
          "the three classical mesopore recurrences and psd_mesoporous "
@@ -41,7 +50,7 @@ MANIFEST = dict(
          "final results follows from invariance of the inputs only for deterministic raw routines, and is validated metamorphically on the "
          "implementation: fresh converted copies, the SAME objects analysed / converted in place / analysed again (stale caches), scale factors "
          "1e-6 ... 1e6.",
-    note="Trusted: Coq kernel; Reals axioms; translators py2v_units.py (C01) and py2v_static.py (AST pattern extraction; an accessor call it "
+    note="Trusted: Coq kernel; Reals axioms; translators py2v_units.py (C01), py2v_adsmethods.py (C20; aborts on a method body of another shape) and py2v_static.py (AST pattern extraction; an accessor call it "
          "cannot classify aborts); the hand-written accessor model (validated against PointIsotherm.pressure/loading/loading_at on every "
          "run); scipy/numpy in the raw routines (not modelled); binary64 rounding (1e-6 / 1e-4 tolerances in the metamorphic runs).",
     technique="Coq proof over generated converters + generated acquisition table; accessor model correspondence; metamorphic testing of the implementation")
@@ -80,9 +89,41 @@ def load(name, folder='characterisation'):
     return pgp.isotherm_from_json(os.path.join(DATA_DIR, folder, name))
 
 
-def synthetic(kind):
-    """synthetic nitrogen isotherms at 77.355 K (relative pressure, mmol/g) with known generating parameters"""
+# ---- adsorbate KINDS: where the converters get saturation pressure / densities from (Adsorbate's three-way methods: thermodynamic
+#      backend, else the stored property, else CalculationError)
+#   backend : shipped nitrogen (CoolProp answers, temperature dependent)
+#   stored  : user-defined, NO backend_name, every property stored (the dictionary path of every method)
+#   both    : backend_name AND stored properties that differ from the backend's values (the backend must win everywhere)
+#   fallback: backend_name whose saturation calls FAIL at the isotherm temperature (150 K > T_c of nitrogen) + stored properties
+#             (the `except` path of every method: calculate=True falling back to the dictionary)
+KIND_PROPS = dict(saturation_pressure=98000.0, liquid_density=0.75, gas_density=0.0045, surface_tension=9.5, cross_sectional_area=0.17,
+                  molecular_diameter=0.31, polarizability=1.5e-3, magnetic_susceptibility=2.1e-8, surface_density=6.5e18)
+KINDS = {'backend': 77.355, 'stored': 90.0, 'both': 77.355, 'fallback': 150.0}
+_KIND_ADS = {}
+
+
+def kind_adsorbate(kind):
+    """-> (registered adsorbate name, isotherm temperature in K)"""
     import pygaps
+    if kind == 'backend':
+        return 'nitrogen', KINDS[kind]
+    if kind not in _KIND_ADS:
+        # densities consistent with the molar mass the methods report (rho = rho_molar * M), as for any real fluid
+        M = 30.07 if kind == 'stored' else float(pygaps.Adsorbate.find('nitrogen').molar_mass())
+        props = dict(KIND_PROPS, molar_mass=M, liquid_molar_density=KIND_PROPS['liquid_density'] / M, gas_molar_density=KIND_PROPS['gas_density'] / M)
+        if kind != 'stored':
+            props['backend_name'] = 'nitrogen'
+        _KIND_ADS[kind] = pygaps.Adsorbate('verif_c15_' + kind, store=True, **props)
+    return 'verif_c15_' + kind, KINDS[kind]
+
+
+def synthetic(kind, ads_kind='backend', rp=('relative', None), inside=None):
+    """synthetic isotherms (mmol/g) with known generating parameters for an adsorbate of the given KIND, CONSTRUCTED in the pressure
+    representation rp: the same physical points (p/p0, n) written down in rp with the saturation pressure in pascal and the pressure unit
+    table - no convert_pressure involved, so an error of the mode conversion cannot cancel between writing and reading"""
+    import pygaps
+    from pygaps.units.converter_unit import _PRESSURE_UNITS, c_unit
+    ads, T = kind_adsorbate(ads_kind)
     if kind == 'bet':
         p = np.array([0.005, 0.01, 0.02, 0.04, 0.06, 0.08, 0.1, 0.13, 0.16, 0.2, 0.25, 0.3, 0.35, 0.4, 0.5, 0.6, 0.7, 0.8, 0.9, 0.95])
         q = p * 1.0137
@@ -90,12 +131,20 @@ def synthetic(kind):
     elif kind == 'langmuir':
         p = np.array([0.001, 0.003, 0.01, 0.02, 0.04, 0.07, 0.1, 0.15, 0.2, 0.3, 0.4, 0.5, 0.6, 0.7, 0.8, 0.9])
         n = 5.0 * 40.0 * p * 1.0137 / (1 + 40.0 * p * 1.0137)
-    else:  # Dubinin-Astakhov like
+    else:  # Dubinin-Astakhov like (characteristic energy proportional to T: the same curve at every temperature)
         p = np.array([1e-5, 3e-5, 1e-4, 3e-4, 1e-3, 3e-3, 0.01, 0.02, 0.05, 0.1, 0.2, 0.3, 0.5, 0.7, 0.9])
         n = 10.0 * np.exp(-(8.314 * 77.355 * np.log(1 / (p * 1.0137)) / 6000.0) ** 2)
     p = p * 1.0137       # keep the points off the routines' default pressure limits (0.1, 0.2, ...): a point ON a limit is an ulp lottery
-    return pygaps.PointIsotherm(pressure=list(p), loading=list(n), material='verif_c15_' + kind, adsorbate='nitrogen', temperature=77.355,
-                                pressure_mode='relative', loading_basis='molar', loading_unit='mmol', material_basis='mass', material_unit='g')
+    if inside is not None:      # only the points well inside a relative-pressure range (an alpha_s sample inside its reference)
+        keep = (p > inside[0] * 1.001) & (p < inside[1] * 0.999)
+        p, n = p[keep], n[keep]
+    if rp[0] == 'relative%':
+        p = p * 100.0
+    elif rp[0] == 'absolute':
+        p0 = float(pygaps.Adsorbate.find(ads).saturation_pressure(T))          # pascal (no unit argument)
+        p = np.array([c_unit(_PRESSURE_UNITS, float(x) * p0, 'Pa', rp[1]) for x in p])
+    return pygaps.PointIsotherm(pressure=list(p), loading=list(n), material='verif_c15_' + kind, adsorbate=ads, temperature=T,
+                                pressure_mode=rp[0], pressure_unit=rp[1], loading_basis='molar', loading_unit='mmol', material_basis='mass', material_unit='g')
 
 
 def clone(iso, scale=1.0):
@@ -180,7 +229,8 @@ def run_entry(entry, iso, extra=None):
             elif entry == 'isosteric_enthalpy':
                 r = pgc.isosteric_enthalpy(iso)
             elif entry.startswith('psd_mesoporous'):
-                r = pgc.psd_mesoporous(iso, psd_model=entry.split(':')[1])
+                parts = entry.split(':')      # psd_mesoporous:<model>[:<branch>]   (default branch: desorption)
+                r = pgc.psd_mesoporous(iso, psd_model=parts[1], **({'branch': parts[2]} if len(parts) > 2 else {}))
             elif entry.startswith('psd_microporous'):
                 r = pgc.psd_microporous(iso, psd_model=entry.split(':')[1])
             else:
@@ -588,6 +638,76 @@ def metamorphic(rep, tier, seed, isos):
     return n_eval, nontrivial, hist
 
 
+# ---------------------------------------------------------------------------------------------- adsorbate kinds x stored representations
+KIND_ENTRIES = {'bet': ['area_BET', 't_plot', 'psd_mesoporous:pygaps-DH:ads', 'psd_mesoporous:BJH:ads', 'psd_mesoporous:DH:ads', 'psd_dft'],
+                'langmuir': ['area_langmuir', 'alpha_s'],
+                'da': ['dr_plot', 'da_plot', 'psd_microporous:HK', 'psd_microporous:HK-CY', 'psd_microporous:RY', 'psd_microporous:RY-CY']}
+
+
+def kinds_sweep(rep, tier, seed, only=None):
+    """every entry point x adsorbate kind x stored representation. The same physical points are WRITTEN DOWN in several pressure
+    representations (synthetic(..., rp): relative, percent, absolute in a unit) and also converted with the implementation's conversions
+    to other pressure / loading / temperature representations; every result must equal the one of the relative-mode construction, and a
+    routine that applies in one representation applies in all (same outcome class)."""
+    rnd = random.Random(seed + 23)
+    n_eval, nontrivial, hist = 0, set(), {}
+    absolute = [r for r in PREPS if r[0] == 'absolute']
+    for ak in KINDS:
+        for syn, entries in KIND_ENTRIES.items():
+            if only and (ak, syn) != only:
+                continue
+            # construction representations: Pa (the unit the adsorbate reports in), bar, percent, + random absolute units (thorough: all)
+            reps = [('absolute', 'Pa'), ('absolute', 'bar'), ('relative%', None)] + (rnd.sample([r for r in absolute if r[1] not in ('Pa', 'bar')], 2) if tier == 'quick'
+                                                                                    else [r for r in absolute if r[1] not in ('Pa', 'bar')])
+            trials = [('constructed', r, None) for r in reps]
+            # conversions (the implementation's own) starting from an ABSOLUTE construction and from the relative one
+            for _ in range(2 if tier == 'quick' else 6):
+                trials.append(('converted', rnd.choice(reps[:2] + [('relative', None)]), (rnd.choice(PREPS), rnd.choice(LREPS), rnd.choice(['K', '°C']))))
+            base_iso = {}
+            for entry in entries:
+                if tier == 'quick' and entry in ('psd_microporous:RY-CY', 'psd_mesoporous:DH:ads', 'psd_dft') and ak == 'backend':
+                    continue
+                ref = inside = None
+                if entry == 'alpha_s':      # reference: the BET curve of the same adsorbate kind in a representation the look-up can read; sample: the Langmuir curve inside it
+                    ref = synthetic('bet', ak)
+                    inside = (float(min(ref.pressure(branch='ads'))), float(max(ref.pressure(branch='ads'))))
+                my_trials = trials if not (entry == 'psd_dft' and tier == 'quick') else [trials[1], trials[3]]      # the slow routine: bar and one random unit
+                oc0, base = run_entry(entry, synthetic(syn, ak, inside=inside), ref)
+                n_eval += 1
+                k0 = '%s/kind:%s/baseline/%s' % (entry.split(':')[0], ak, oc0)
+                hist[k0] = hist.get(k0, 0) + 1
+                for how, rp, conv in my_trials:
+                    iso = synthetic(syn, ak, rp, inside=inside)
+                    if conv is not None:
+                        iso = convert(iso, *conv)
+                    oc, var = run_entry(entry, iso, ref)
+                    n_eval += 1
+                    kk = '%s/kind:%s/%s/%s' % (entry.split(':')[0], ak, how, oc)
+                    hist[kk] = hist.get(kk, 0) + 1
+                    info = {'entry': entry, 'isotherm': 'syn-' + syn, 'kind': 'adsorbate-kind', 'adsorbate_kind': ak, 'constructed_in': list(rp),
+                            'converted_to': conv and [list(conv[0]), list(conv[1]), conv[2]]}
+                    where = 'written down in %s%s' % (rp, '' if conv is None else ' and converted to %s' % (conv,))
+                    tag = 'C15:unclassified:%s:adsorbate-kind-%s' % (entry.split(':')[0], ak)
+                    if (oc == 'Ok') != (oc0 == 'Ok'):
+                        rep.failure(tag, '%s(syn-%s, %s adsorbate): %s with the points written down in relative pressure, %s with the same points %s (%s)' % (
+                            entry, syn, ak, oc0, oc, where, var if oc != 'Ok' else base), info)
+                        continue
+                    if oc != 'Ok':
+                        continue
+                    d = differ(entry, base, var)
+                    if d and entry == 'psd_dft':
+                        # what the routine READ from the isotherm is judged here; the kernel fit's sensitivity to the last bits is the known finding of the main sweep
+                        if not any(k.startswith('/acquired') for k, _ in d):
+                            info['inputs_agree'] = True
+                            tag = classify(entry, 'representation', info)
+                    if d:
+                        rep.failure(tag, '%s(syn-%s, %s adsorbate): the result for the points written down in relative pressure changes when the same points are %s: %s' % (
+                            entry, syn, ak, where, d[:3]), info)
+                    else:
+                        nontrivial.add((entry, 'syn-' + syn, ak, how, tuple(rp), conv))
+    return n_eval, nontrivial, hist
+
+
 def all_isotherms(tier):
     isos = {k: load(v) for k, v in N77.items()}
     for kind in ('bet', 'langmuir', 'da'):
@@ -604,20 +724,33 @@ def run(rep, tier, seed):
 
 def explore(rep, tier, seed):
     isos = all_isotherms(tier)
-    n1 = correspondence(rep, tier, seed, {k: isos[k] for k in ('MCM-41', 'NaY', 'Takeda 5A')})
+    rk = random.Random(seed + 31)
+    corr = {k: isos[k] for k in ('MCM-41', 'NaY', 'Takeda 5A')}
+    for ak in KINDS:
+        if ak != 'backend':     # the accessor model reads the adsorbate's pascal value and converts ONCE: every kind must behave so
+            corr['syn-bet/' + ak] = synthetic('bet', ak, rk.choice([('absolute', 'bar'), ('absolute', 'kPa'), ('absolute', 'torr'), ('relative', None)]))
+    n1 = correspondence(rep, tier, seed, corr)
     n2, nontrivial, hist = metamorphic(rep, tier, seed, isos)
+    n3, nt3, hist3 = kinds_sweep(rep, tier, seed)
+    n2 += n3
+    nontrivial |= nt3
+    hist.update(hist3)
     rep.cov['evaluations'] = n1 + n2
     rep.cov['distinct_nontrivial'] = len(nontrivial)
     rep.cov['rule'] = ('metamorphic: every entry point (area_BET, area_langmuir, t_plot, alpha_s, dr_plot, da_plot, psd_mesoporous x 3 models, psd_microporous x 4 '
                        'models, psd_dft, initial_henry_slope, initial_henry_virial, isosteric_enthalpy) x 5 shipped N2 isotherms + 3 synthetic (BET, Langmuir, DA) x '
                        'random (pressure representation of 10, non-fractional loading representation of 25, temperature unit) + 4 fixed variants x scale factors '
                        '0.5, 3, 1e-6, 1e6 (thorough: also 1e-4, 1e-3, 1e3); the SAME object analysed, converted in place and analysed again (every entry point; '
-                       'alpha_s sample and reference objects; the isosteric set); alpha_s with sample / reference converted; isosteric sets converted jointly and mixed. non-trivial = distinct (entry point, isotherm, variant) '
+                       'alpha_s sample and reference objects; the isosteric set); alpha_s with sample / reference converted; isosteric sets converted jointly and mixed; adsorbate kinds '
+                       '(backend nitrogen 77 K; user-defined stored-only 90 K; backend + different stored values 77 K; backend failing at 150 K + stored values) x 14 entry points (alpha_s sample side and the columns psd_dft acquires included) on the '
+                       'synthetic isotherms, the same points written down in relative / percent / absolute Pa, bar + 2 random units (thorough: all 8) and converted onward, against the '
+                       'relative-mode construction, same outcome class required. non-trivial = distinct (entry point, isotherm, variant) '
                        'whose result agreed field by field (1e-6; optimiser-based routines 1e-4) with the baseline / the exact factor')
     rep.cov['input_distribution'] = hist
     rep.cov['tolerance'] = {'default_rel': 1e-6, 'optimiser_based_rel': 1e-4}
     rep.cov['samples'] += [{'entry': 'area_BET', 'isotherm': 'MCM-41', 'variant': "('absolute','kPa'), ('mass','mg'), degC", 'result': 'equal field by field'}]
     rep.cov['trusted_base'] += ['translator tools/py2v_static.py (acquisition table; fail-closed on unclassifiable accessor calls)',
+                                'translator tools/py2v_adsmethods.py (Adsorbate property methods; fail-closed on another body shape)',
                                 'hand-written accessor model Charact/Invariance.v (validated against PointIsotherm.pressure/loading/loading_at above)',
                                 'raw characterisation routines, scipy, numpy: not modelled (metamorphic validation only)',
                                 'conversions used to build the variants are the implementation\'s own convert_* (verified by C02)']
@@ -650,6 +783,26 @@ def replay(d):
         print('baseline enthalpy', oc0, base['isosteric_enthalpy'][:3] if oc0 == 'Ok' else base)
         print('variant  enthalpy', oc, var['isosteric_enthalpy'][:3] if oc == 'Ok' else var)
         return 1
+    if r.get('kind') == 'adsorbate-kind':
+        syn, ak = r['isotherm'][4:], r['adsorbate_kind']
+        ref = inside = None
+        if entry == 'alpha_s':
+            ref = synthetic('bet', ak)
+            inside = (float(min(ref.pressure(branch='ads'))), float(max(ref.pressure(branch='ads'))))
+        oc0, base = run_entry(entry, synthetic(syn, ak, inside=inside), ref)
+        iso = synthetic(syn, ak, tuple(r['constructed_in']), inside=inside)
+        if r.get('converted_to'):
+            cv = r['converted_to']
+            iso = convert(iso, tuple(cv[0]), tuple(cv[1]), cv[2])
+        oc, var = run_entry(entry, iso, ref)
+        print('adsorbate kind %r: %s at %s K, saturation pressure in Pa / in bar: %r / %r' % (
+            ak, iso.adsorbate, iso.temperature, iso.adsorbate.saturation_pressure(KINDS[ak]), iso.adsorbate.saturation_pressure(KINDS[ak], unit='bar')))
+        print('points written down in relative pressure:', oc0, {k: (v if np.size(v) < 4 else '...') for k, v in base.items()} if oc0 == 'Ok' else base)
+        print('points written down in %s%s:' % (r['constructed_in'], ' then converted to %s' % r['converted_to'] if r.get('converted_to') else ''),
+              oc, {k: (v if np.size(v) < 4 else '...') for k, v in var.items()} if oc == 'Ok' else var)
+        bad = (oc == 'Ok') != (oc0 == 'Ok') or (oc == 'Ok' and differ(entry, base, var))
+        print('DIFFERENT' if bad else 'equal')
+        return 1 if bad else 0
     iso0 = isos[r['isotherm']]
     if entry == 'alpha_s':
         ref0 = convert(isos['SiO2'], ('relative', None))
